@@ -293,6 +293,41 @@ pub fn run(ctx: &mut Ctx) {
     ctx.layer("random");
     ctx.run_prop(&SUB_PRES, matrix_case, t.pick(600_000, 6_000_000));
     ctx.run_prop(&SUB_PRES, sparse_case, t.pick(10_000, 200_000));
+    ctx.layer("dsymbol-presentations");
+    ctx.run_prop(&SUB_PRES, dsymbol_presentation, t.pick(6_000, 100_000));
+}
+
+/// presentations as they occur in the crate: fundamental groups of random D-symbols (the crate's own
+/// presentation and the harness's textbook one) and stabiliser presentations of their low-index tables
+fn dsymbol_presentation() -> impl Strategy<Value = Pres> {
+    use crate::gen::dsyms::random_symbol;
+    use crate::oracle::fg::own_fundamental_group;
+    (prop_oneof![random_symbol(2, 2..=40), random_symbol(3, 2..=30)], 0u8..3, recipe(4)).prop_filter_map("presentation available", |(x, which, (twist, order, gen_swaps, gen_flip, extra))| {
+        let (n, rels): (usize, Vec<Vec<i64>>) = match which {
+            0 => {
+                let o = own_fundamental_group(&x);
+                (o.pres.nr_gens, o.pres.rels)
+            }
+            1 => {
+                let fg = guarded(|| rust_dsymbols::fundamental_group::fundamental_group(&x.to_partial())).ok()?;
+                (fg.nr_generators(), fg.relators.iter().map(|w| w.iter().map(|&l| l as i64).collect()).collect())
+            }
+            _ => {
+                // stabiliser of row 0 in the first non-trivial low-index table of the crate's presentation
+                let fg = guarded(|| rust_dsymbols::fundamental_group::fundamental_group(&x.to_partial())).ok()?;
+                if fg.nr_generators() > 6 || fg.relators.iter().any(|w| w.len() == 0) {
+                    return None;
+                }
+                let t = guarded(|| rust_dsymbols::fpgroups::cosets::coset_tables(fg.nr_generators(), &fg.relators, 3).filter(|t| t.len() > 1).next()).ok()??;
+                let (g, r) = guarded(|| rust_dsymbols::fpgroups::stabilizer::stabilizer(0, fg.relators.clone(), &t)).ok()?;
+                (g.len(), r.iter().map(|w| w.iter().map(|&l| l as i64).collect()).collect())
+            }
+        };
+        if n == 0 || n > 120 {
+            return None;
+        }
+        Some(Pres { nr_gens: n, rels, twist, order, gen_swaps, gen_flip, extra })
+    })
 }
 
 pub fn replay(ctx: &mut Ctx, sub: &str, case: &Value) -> Option<Result<(), String>> {
